@@ -48,6 +48,9 @@ func check(c arith.Case, st *core.Stats) error {
 	}
 	if d := int64(c.X.Exp) - int64(c.Y.Exp); d > 2*int64(c.Ctx.P) || d < -2*int64(c.Ctx.P) {
 		st.Class("large-exponent-gap")
+		if (d > 128 || d < -128) && (nq == int64(c.Ctx.P) || nq == int64(c.Ctx.P)+1) {
+			st.Class("gap-over-128-with-quotient-at-the-digit-limit")
+		}
 	}
 	for _, pair := range []struct {
 		name string
